@@ -648,7 +648,7 @@ def squeeze_axes(ctx, world):
                 ctx.ob("A3.squeeze", inst, True, e.loc)
             else:
                 ctx.fail("A3.squeeze", inst, f"{e.mode}:{e.prim_id}|bare-squeeze", e.loc, f"`{norm_text(t.node)[:60] if t.node is not None else 'squeeze(...)'}` squeezes every size-1 axis of the (co)tangent, including those of the argument itself", "an argument that has a size-1 dimension of its own, e.g. shape (1, 3)")
-    ctx.floor("A3.squeeze squeeze calls in rule bodies", n, 2)
+    ctx.floor("A3.squeeze squeeze calls in rule bodies", n, 1)
 
 
 def guard_functions(ctx, world):
@@ -689,7 +689,7 @@ def guard_functions(ctx, world):
                         if not all(len(c.facts) == 1 and _same(c.facts[0][0], a0) and c.facts[0][1] != p0 for c in quiet) or not all(_same(c.facts[0][0], a0) and c.facts[0][1] == p0 for c in rais):
                             ok, why = False, "the guard does not raise under exactly one comparison over its parameters"
                 _ok(ctx, "A6.guardfn", inst, ok, loc_of(mod, st), inst, f"{inst}: {why}", "an unsupported configuration that satisfies the original condition but not the additional ones")
-    ctx.floor("A6.guardfn guard functions", n, 2)
+    ctx.floor("A6.guardfn guard functions", n, 1)
 
 
 def axis_normalisation_consistency(ctx, world):
